@@ -25,10 +25,15 @@ Apply(e) ==
   CASE e.op = "set"     -> DoSet(st, e.k, e.v, e.ok = 1)
     [] e.op = "set_cut" -> DoCutSet(st, e.k, e.v, e.ok = 1)
     [] e.op = "set_kill" -> DoCutSet(st, e.k, e.v, FALSE)
-    [] e.op \in {"sched", "stress"} -> [st EXCEPT !.cand[e.k] = {Absent} \cup {v \in 0..8 : TRUE}]
-    [] e.op = "encstress" -> [st EXCEPT !.cand = [k \in DOMAIN st.cand |-> {e.v}]]
+    [] e.op \in {"sched", "stress"} -> [st EXCEPT !.cand[e.k] = {Absent} \cup {v \in 0..8 : TRUE}, !.file[e.k] = UnkFile, !.orig[e.k] = UnkFile]
+    [] e.op = "encstress" -> [st EXCEPT !.cand = [k \in DOMAIN st.cand |-> {e.v}],
+                                        !.file = [k \in DOMAIN st.cand |-> UnkFile], !.orig = [k \in DOMAIN st.cand |-> UnkFile]]
     [] e.op \in {"del", "api_del"} -> DoDel(st, e.k, e.ok = 1)
-    [] e.op = "tamper"  -> IF e.ok = 1 THEN DoTamper(st, e.k) ELSE st
+    [] e.op = "tamper"  -> IF e.ok = 1 THEN DoTamper(st, e.k, e.how, e.k2) ELSE st
+    [] e.op = "tamper_all" -> DoTamperAll(st)
+    [] e.op = "rt_store" -> IF e.ok = 1 THEN DoRtStore(st, e.v) ELSE st
+    \* a response the transport fetched is what it has stored now
+    [] e.op = "rt_get" -> IF e.ok = 1 /\ e.st >= 1 THEN DoRtStore(st, e.rv) ELSE st
     [] e.op = "reopen"  -> DoMode(st, "ok")
     [] e.op = "reopen_wrongkey" -> IF e.ok = 1 THEN DoMode(st, "wrongkey") ELSE st
     [] e.op = "reopen_plain" -> IF e.ok = 1 THEN DoMode(st, "plain") ELSE st
@@ -67,7 +72,9 @@ M15 ==
 
 \* C17: encryption at rest
 M17 == IsKv =>
-  CASE E.op = "set" -> B.enc => (E.plain = 0 /\ E.samect = 0)
+  CASE E.op = "set" -> (B.enc /\ B.mode # "plain") => (E.plain = 0 /\ E.samect = 0)
+    [] E.op = "rt_store" -> (B.enc /\ B.mode # "plain") => E.plain = 0
+    [] E.op = "rt_get" -> RtGetOK(B, E.ok = 1, E.rv, E.st)
     [] E.op = "encstress" -> E.samect = 0 /\ E.ok = 1
     [] E.op = "get" -> GetSecretOK(B, E.k, E.ok = 1, E.rv)
     [] E.op = "open_enc" -> (E.expect = 0 => E.ok = 0) /\ (E.expect = 1 => E.ok = 1 /\ E.plain = 0)
@@ -79,7 +86,9 @@ Bad == { p[1] : p \in { q \in Mons : ~q[2] } }
 NT == IF ~IsKv THEN {} ELSE
       (IF E.op \in {"get", "api_get", "del", "api_del", "keys", "api_list"} THEN {"C14"} ELSE {})
       \cup (IF (E.op = "get" /\ Cardinality(B.cand[E.k]) > 1) \/ E.op \in {"sched", "stress"} THEN {"C15"} ELSE {})
-      \cup (IF (B.enc /\ E.op \in {"set", "get"} /\ (E.op = "set" \/ E.k \in B.tampered \/ B.mode # "ok")) \/ E.op \in {"open_enc", "encstress"} THEN {"C17"} ELSE {})
+      \cup (IF (B.enc /\ E.op \in {"set", "get"} /\ (E.op = "set" \/ Tampered(B, E.k) \/ B.mode # "ok" \/ B.file[E.k].wm \notin {"ok", "none"}))
+               \/ (B.enc /\ E.op = "rt_get" /\ B.rt # "none" /\ (B.rt = "tampered" \/ B.rtwm # B.mode))
+               \/ E.op \in {"open_enc", "encstress"} THEN {"C17"} ELSE {})
 
 Record ==
   /\ (Bad = {} \/ ( /\ PrintT(<<"VIOL", scn, last.line, Bad, E.op>>)
